@@ -42,6 +42,7 @@ Json generate(const std::string& tier, uint64_t seed, uint64_t index) {
     Json ty = Json::array();
     for (int j = 0; j < s.nvars; ++j) ty.push((long)rng.below(3));
     sc.set("easy_types", ty);
+    sc.set("easy_c", rng.chance(0.5));
   }
   return sc;
 }
@@ -260,6 +261,8 @@ sim::RunResult run(const Json& sc) {
   // ---- the same file through the easy API: everything per column comes back in the caller's order
   if (sc.has("easy_types") && r.verdict == "OK" && res.status == "returned" && res.rc == 0 && !nonfinite) {
     SolReadConfig ec; ec.nvars = s.nvars; ec.ncons = s.ncons; ec.nlcons = 0; ec.easy_party = true;
+    // half of them through the C flavour (NLW2_ReadSolution_C on a solver object that has read another solution before)
+    if (sc["easy_c"].as_bool()) { ec.easy_party = false; ec.easy_c_party = true; bump(st, "easy_party_c_flavour"); }
     for (auto& t : sc["easy_types"].arr()) ec.easy_types.push_back((int)t.as_int());
     SolReadResult er;
     SimRun se = sim_session(nofaults, 400000, [&] { er = read_sol(path, ec); });
@@ -269,6 +272,10 @@ sim::RunResult run(const Json& sc) {
     else if (er.rc != 0) bump(st, "easy_party_rejected");       // (objective / problem suffixes beyond what the one-objective model has, ...)
     else if ((int)er.easy_vperm.size() == s.nvars) {
       bump(st, "easy_party_read_ok");
+      // the message and the solve result come back as the recording handler saw them
+      if (er.got_msg && norm_lines(er.message) != norm_lines(res.message))
+        v.set("EASY_MESSAGE", ec.easy_c_party ? "c" : "cpp", "the easy reader returned the message '" + er.message.substr(0, 60) + "' (" + std::to_string(er.message.size()) + " bytes), the file holds '" + res.message.substr(0, 60) + "' (" + std::to_string(res.message.size()) + " bytes)");
+      if (er.got_code && er.code != s.status) v.set("EASY_MESSAGE", "code", "the easy reader returned solve result " + std::to_string(er.code) + ", written " + std::to_string(s.status));
       const std::vector<int>& vp = er.easy_vperm;
       bool moved = false; for (int j = 0; j < s.nvars; ++j) moved |= vp[(size_t)j] != j;
       if (moved) bump(st, "easy_party_permuted");
